@@ -126,7 +126,8 @@ func runHeap() {
 			if rep == 0 && n%3 == 0 {
 				rr.mode, entropy = "zero", "zero"
 			}
-			_, _, err := ed25519.VerifyBatch(rr, keys, msgs, sigs, o.opts(true))
+			var err error
+			watch(traces[0], "VerifyBatch (all-valid batch)", func() { _, _, err = ed25519.VerifyBatch(rr, keys, msgs, sigs, o.opts(true)) })
 			if err != nil {
 				panic(err)
 			}
@@ -281,7 +282,7 @@ func runHeap() {
 			}
 		}
 		var res ge25519.Ge25519
-		ed25519.VerifMultiScalarmult(&res, &heap, pts, scs, count)
+		watch(traces[0], fmt.Sprintf("multiScalarmultVartime (flavour=%s, %d points, scalars=%v)", flavour, bs, svals), func() { ed25519.VerifMultiScalarmult(&res, &heap, pts, scs, count) })
 		var resb [32]byte
 		ge25519.Pack(resb[:], &res)
 		// the harness projects the real result: which (k, t) does it equal?  Try the exact sum first; if the
